@@ -35,11 +35,11 @@ const rtPath = "verif/rt"
 
 // rebind: original package path -> identifier -> shim package path
 var rebind = map[string]map[string]string{
-	"sync": {"Mutex": "verif/shim/vsync", "RWMutex": "verif/shim/vsync", "WaitGroup": "verif/shim/vsync", "Once": "verif/shim/vsync"},
-	"net":  {"Listen": "verif/shim/vnet", "DefaultResolver": "verif/shim/vnet"},
-	"context": {"WithCancel": "verif/shim/vctx", "WithTimeout": "verif/shim/vctx", "WithDeadline": "verif/shim/vctx"},
-	"time": {"Now": "verif/shim/vtime", "Sleep": "verif/shim/vtime", "Since": "verif/shim/vtime", "Until": "verif/shim/vtime", "After": "verif/shim/vtime", "AfterFunc": "verif/shim/vtime"},
-	"bufio": {"NewReader": "verif/shim/vbufio", "NewWriter": "verif/shim/vbufio", "NewReaderSize": "verif/shim/vbufio", "NewWriterSize": "verif/shim/vbufio", "Reader": "verif/shim/vbufio", "Writer": "verif/shim/vbufio"},
+	"sync":        {"Mutex": "verif/shim/vsync", "RWMutex": "verif/shim/vsync", "WaitGroup": "verif/shim/vsync", "Once": "verif/shim/vsync"},
+	"net":         {"Listen": "verif/shim/vnet", "DefaultResolver": "verif/shim/vnet"},
+	"context":     {"WithCancel": "verif/shim/vctx", "WithTimeout": "verif/shim/vctx", "WithDeadline": "verif/shim/vctx"},
+	"time":        {"Now": "verif/shim/vtime", "Sleep": "verif/shim/vtime", "Since": "verif/shim/vtime", "Until": "verif/shim/vtime", "After": "verif/shim/vtime", "AfterFunc": "verif/shim/vtime"},
+	"bufio":       {"NewReader": "verif/shim/vbufio", "NewWriter": "verif/shim/vbufio", "NewReaderSize": "verif/shim/vbufio", "NewWriterSize": "verif/shim/vbufio", "Reader": "verif/shim/vbufio", "Writer": "verif/shim/vbufio"},
 	"sync/atomic": {"*": "verif/shim/vatomic"},
 }
 
@@ -390,9 +390,19 @@ func markSkip(e ast.Expr) {
 }
 
 var inComm = map[ast.Node]bool{}
+var rangeOverMap = map[ast.Node]bool{}
+var rangeOverChan = map[ast.Node]bool{}
 
 func (x *xf) pre(c *astutil.Cursor) bool {
 	switch n := c.Node().(type) {
+	case *ast.RangeStmt:
+		// types are looked up before the operand is rewritten
+		if mt, ok := x.mapType(n.X); ok && orderedKey(mt) {
+			rangeOverMap[n] = true
+		}
+		if x.isChan(n.X) {
+			rangeOverChan[n] = true
+		}
 	case *ast.CommClause:
 		// the communication of a select case stays native (the select itself is handled as a whole)
 		if n.Comm != nil {
@@ -448,6 +458,25 @@ func (x *xf) builtin(call *ast.CallExpr, name string) bool {
 	}
 	_, isB := x.pkg.TypesInfo.Uses[id].(*types.Builtin)
 	return isB
+}
+
+func isBlank(e ast.Expr) bool {
+	id, ok := e.(*ast.Ident)
+	return ok && id.Name == "_"
+}
+
+func (x *xf) mapType(e ast.Expr) (*types.Map, bool) {
+	t := x.pkg.TypesInfo.TypeOf(e)
+	if t == nil {
+		return nil, false
+	}
+	m, ok := t.Underlying().(*types.Map)
+	return m, ok
+}
+
+func orderedKey(m *types.Map) bool {
+	b, ok := m.Key().Underlying().(*types.Basic)
+	return ok && b.Info()&(types.IsInteger|types.IsFloat|types.IsString) != 0
 }
 
 func (x *xf) isChan(e ast.Expr) bool {
@@ -558,7 +587,38 @@ func (x *xf) post(c *astutil.Cursor) bool {
 			c.Replace(vrtCall("Recv", n.X))
 		}
 	case *ast.RangeStmt:
-		if x.isChan(n.X) {
+		if rangeOverMap[n] {
+			// for k, v := range m  ->  for _, k := range vrt.SortedKeys(m) { v, ok := m[k]; if !ok { continue }; ... }
+			x.needRT = true
+			kk := ast.NewIdent("_vk")
+			var pre []ast.Stmt
+			mexpr := n.X
+			tok := n.Tok
+			if tok == token.ILLEGAL {
+				tok = token.DEFINE
+			}
+			if n.Key != nil && !isBlank(n.Key) {
+				pre = append(pre, &ast.AssignStmt{Lhs: []ast.Expr{n.Key}, Tok: tok, Rhs: []ast.Expr{kk}})
+			}
+			vv := ast.Expr(ast.NewIdent("_"))
+			vtok := token.ASSIGN
+			if n.Value != nil && !isBlank(n.Value) {
+				vv = n.Value
+				vtok = tok
+			}
+			okID := ast.NewIdent("_vmok")
+			if vtok == token.ASSIGN {
+				pre = append(pre, &ast.DeclStmt{Decl: &ast.GenDecl{Tok: token.VAR, Specs: []ast.Spec{&ast.ValueSpec{Names: []*ast.Ident{okID}, Type: ast.NewIdent("bool")}}}})
+				pre = append(pre, &ast.AssignStmt{Lhs: []ast.Expr{vv, okID}, Tok: token.ASSIGN, Rhs: []ast.Expr{&ast.IndexExpr{X: mexpr, Index: kk}}})
+			} else {
+				pre = append(pre, &ast.AssignStmt{Lhs: []ast.Expr{vv, okID}, Tok: token.DEFINE, Rhs: []ast.Expr{&ast.IndexExpr{X: mexpr, Index: kk}}})
+			}
+			pre = append(pre, &ast.IfStmt{Cond: &ast.UnaryExpr{Op: token.NOT, X: okID}, Body: &ast.BlockStmt{List: []ast.Stmt{&ast.BranchStmt{Tok: token.CONTINUE}}}})
+			body := &ast.BlockStmt{List: append(pre, n.Body.List...)}
+			c.Replace(&ast.RangeStmt{Key: ast.NewIdent("_"), Value: kk, Tok: token.DEFINE, X: vrtCall("SortedKeys", mexpr), Body: body})
+			return true
+		}
+		if rangeOverChan[n] {
 			// for v := range ch  ->  for { v, ok := vrt.Recv2(ch); if !ok { break }; ... }
 			x.needRT = true
 			okID := ast.NewIdent("_vok")
@@ -578,8 +638,37 @@ func (x *xf) post(c *astutil.Cursor) bool {
 		// a select that can block natively is preceded by a scheduling point; selects with a default never block
 		hasDefault := false
 		for _, cl := range n.Body.List {
-			if cc, ok := cl.(*ast.CommClause); ok && cc.Comm == nil {
+			cc, ok := cl.(*ast.CommClause)
+			if !ok {
+				continue
+			}
+			if cc.Comm == nil {
 				hasDefault = true
+				continue
+			}
+			// happens-before edges of the native communication: release before a possible send, acquire in a receive case
+			switch cm := cc.Comm.(type) {
+			case *ast.SendStmt:
+				if _, isCall := cm.Chan.(*ast.CallExpr); !isCall && inBlock(c) {
+					x.needRT = true
+					c.InsertBefore(&ast.ExprStmt{X: vrtCall("ChanRelease", cm.Chan)})
+				}
+			case *ast.ExprStmt:
+				if u, ok := cm.X.(*ast.UnaryExpr); ok && u.Op == token.ARROW {
+					if _, isCall := u.X.(*ast.CallExpr); !isCall {
+						x.needRT = true
+						cc.Body = append([]ast.Stmt{&ast.ExprStmt{X: vrtCall("ChanAcquire", u.X)}}, cc.Body...)
+					}
+				}
+			case *ast.AssignStmt:
+				if len(cm.Rhs) == 1 {
+					if u, ok := cm.Rhs[0].(*ast.UnaryExpr); ok && u.Op == token.ARROW {
+						if _, isCall := u.X.(*ast.CallExpr); !isCall {
+							x.needRT = true
+							cc.Body = append([]ast.Stmt{&ast.ExprStmt{X: vrtCall("ChanAcquire", u.X)}}, cc.Body...)
+						}
+					}
+				}
 			}
 		}
 		if !hasDefault && inBlock(c) {
